@@ -112,9 +112,15 @@ Judge(e, n, pre, post) ==
                              /\ q.blk = ThePP(pre, pre.prepared).blk /\ q.bok,
          "c09_vote_without_lock")
   \* the same, with "holding a prepared certificate" read off the node's message log instead of its own flag: a stored proposal
-  \* with its block and PREPAREs of quorum weight (with the proposer) for exactly its hash
+  \* with its block and PREPAREs of quorum weight (with the proposer) for exactly its hash, on which the node has ACTED (it signed
+  \* the COMMIT of that view and hash).  Without the last condition the formula asked for more than the property: a newly elected
+  \* leader that had received a PREPARE of its coming view early holds proposal + quorum in its log without ever having become
+  \* prepared in that view (nothing re-evaluates the log after its own proposal is stored); it signed no COMMIT there, no COMMIT
+  \* quorum of that view can contain it, and reporting its older lock is what the protocol asks (false alarm of the thorough tier,
+  \* seed 1, run 1078; DESIGN.md 7).
   /\ Chk((e.ev = "timeout" /\ same) =>
-           LET certs == {p.v : p \in {q \in pre.pp : q.blk # "-" /\ IsQuorum(pre.h, PrepSenders(pre, q.v, q.x) \cup {q.s})}} IN
+           LET certs == {p.v : p \in {q \in pre.pp : q.blk # "-" /\ IsQuorum(pre.h, PrepSenders(pre, q.v, q.x) \cup {q.s})
+                                                     /\ <<pre.h, q.v, q.x>> \in H.c}} IN
            certs # {} => LET top == CHOOSE v \in certs : \A u \in certs : u <= v IN
                          /\ \A q \in sentVC : q.proof.has /\ q.proof.ppv = top /\ q.blk = ThePP(pre, top).blk
                          /\ (sentVC = {} => \E t \in VotesAt(post, post.view) : t.s = n /\ t.pv = top),
